@@ -349,3 +349,79 @@ func RunCase(c *rt.Case, info *CaseInfo, sc Scenario, maxExecs int) *Result {
 	r.res.WallMs = time.Since(start).Milliseconds()
 	return r.res
 }
+
+// CollectTraces enumerates ALL executions of a case under a scenario without pruning and returns the
+// distinct (provider-level projection, outcome) pairs.
+func CollectTraces(c *rt.Case, info *CaseInfo, sc Scenario, maxExecs int) *TraceSet {
+	ts := &TraceSet{Pkg: info.Pkg, Scenario: sc.Name, Fail: sc.Fail, Cancel: sc.Cancel}
+	fail := map[string]bool{}
+	errs := map[string]error{}
+	for _, f := range sc.Fail {
+		fail[f] = true
+		errs[f] = errors.New("fail:" + f)
+	}
+	rt.SetBackend(backendFunc(func(pid string, args []string) (string, error) {
+		sched.Yield("enter:"+pid, args...)
+		sched.Yield("exit:" + pid)
+		if fail[pid] {
+			return "", errs[pid]
+		}
+		return rt.Term(pid, args), nil
+	}))
+	defer rt.SetBackend(nil)
+	seen := map[string]bool{}
+	e := &sched.Explorer{MaxExecs: maxExecs, NoPrune: true, KeepLog: true}
+	e.Setup = func(w *sched.World) func() {
+		return func() {
+			ctx := vctx.New()
+			if sc.Cancel {
+				sched.GoEnv("canceller", func() {
+					if sched.EnvCancelPoint() {
+						ctx.Cancel(nil, "caller")
+					}
+				})
+			}
+			term, err := c.Call(ctx)
+			es := ""
+			if err != nil {
+				es = err.Error()
+			}
+			sched.MainReturn(term + "\x1f" + es)
+		}
+	}
+	e.AfterRun = func(w *sched.World, choices []int, cut bool) {
+		if cut {
+			return
+		}
+		tr := Trace{}
+		for _, ev := range w.Log {
+			switch ev.Kind {
+			case sched.OpYield:
+				tr.Proj = append(tr.Proj, ev.Label)
+			case sched.OpEnvCancel:
+				tr.Proj = append(tr.Proj, "cancel")
+			case sched.OpMainReturn:
+				parts := strings.SplitN(ev.Label, "\x1f", 2)
+				tr.Term, tr.Err, tr.Returned = parts[0], parts[1], true
+			}
+		}
+		for _, v := range w.Viol {
+			if v.Kind == "race" {
+				tr.Race = true
+				ts.Race = true
+			}
+		}
+		k := strings.Join(tr.Proj, ",") + "=>" + tr.Term + "/" + tr.Err + fmt.Sprint(tr.Returned)
+		if !seen[k] {
+			seen[k] = true
+			ts.Traces = append(ts.Traces, tr)
+		}
+	}
+	e.Explore()
+	ts.Execs, ts.Capped = e.Execs, e.Capped
+	return ts
+}
+
+type backendFunc func(pid string, args []string) (string, error)
+
+func (f backendFunc) Call(pid string, args []string) (string, error) { return f(pid, args) }
